@@ -144,6 +144,14 @@ def _produce(ctx, case):
         if via in ("ids", "ids2d"):
             ids = [wid(w % rows, w // rows) for w in sel]
             arg = list(ids)
+            from ..world import scribble_on_helper_results
+
+            if (len(ids) * 7 + rows * 3 + cols) % 8 == 0:
+                scribble_on_helper_results(rows, cols)  # somebody else edited HIS copy of the helper tables
+            if via == "ids" and len(ids) >= 1 and (len(ids) + rows + cols) % 4 == 0:
+                # an id list may name a well more than once (concatenated lists): still the same subset
+                arg = list(ids) + [ids[0], ids[-1]]
+                ctx.count("id_list_with_repeated_wells")
             if via == "ids2d":
                 k = len(ids)
                 d = max((x for x in range(1, int(k ** 0.5) + 1) if k % x == 0), default=1) if k else 1
